@@ -4,7 +4,7 @@ import "os"
 
 // vhFollower (engine): a follower whose memory still holds what it replayed from its F-byte log: the marker
 // collection "old" stands for that data; the modelled loadAOF replaces it by "loaded".
-func vhFollower(F, L, P int64) *Server {
+func vhFollower(F, L, P, Q int64) *Server {
 	s := vhServer()
 	s.mu = &vhLock{s: s, noSnap: true}
 	s.aof = new(os.File)
